@@ -245,6 +245,11 @@ Ret(kind, hasOut, out, hasErr, err, textOk) ==
           \cup V(limit >= 0 /\ kind \in {"ok", "timedout"} => total <= limit, "C03_limit")
           \cup V(kind = "ok" /\ allEmpty => \A o \in Outs \cap piped : buf[o] = <<>> /\ ~cOpen[o],
                  "C03_empty_is_eof")
+          \* C03: under a size limit the pieces are consecutive and exact, and when the all-empty end marker comes
+          \* their concatenation is everything the child wrote
+          \cup V(limit >= 0 => \A o \in Outs : IsPrefixOf(nd[o], written[o]), "C03_pieces_consecutive_and_exact")
+          \cup V(limit >= 0 /\ kind = "ok" /\ allEmpty => \A o \in Outs \cap piped : nd[o] = written[o],
+                 "C03_pieces_consecutive_and_exact")
           \cup V(kind = "timedout" => dl # NoTime /\ TLt(dl, TAdd(now, Ms(1))), "C04_truthful")
   /\ UNCHANGED <<piped, cap, k, short, input, flood, buf, pOpen, cOpen, cPend, cAlive, now, limit, dl, sawEof,
                  written, inAcc, cRecv, cEof, pwDone, after, noProg, sanity>>
